@@ -29,9 +29,12 @@ type vWorld struct {
 	slots      map[string]int // node -> instances the resource manager reports as deployable
 	processing map[string]int // node -> in-progress marker
 	created    int
-	allocsOK   int            // successful rmgr.Alloc calls so far
-	createSeen bool           // an engine.VirtualizationCreate was attempted
-	leakRegion bool           // the fault fired after an Alloc succeeded and before any create attempt
+	allocsOK   int  // successful rmgr.Alloc calls so far
+	createSeen bool // an engine.VirtualizationCreate was attempted
+	leakRegion bool // the fault fired after an Alloc succeeded and before any create attempt
+	crashMode  bool // the "fault" is a crash of the core process: from that call on nothing has any effect
+	frozen     bool
+	repair     bool           // GetNodeResourceInfo(fix=true) repairs usage
 	applied    map[string]int // container id -> amount the engine applied
 	running    map[string]bool
 	calls      int
@@ -42,11 +45,17 @@ type vWorld struct {
 
 // fault reports whether the current fallible call is the one that fails.
 func (w *vWorld) fault(site string) bool {
+	if w.frozen {
+		return true // the process is dead: nothing reaches the outside world any more
+	}
 	w.calls++
 	w.sites = append(w.sites, site)
 	if w.calls == w.faultAt {
 		w.site = site
 		w.leakRegion = w.allocsOK > 0 && !w.createSeen
+		if w.crashMode {
+			w.frozen = true
+		}
 		return true
 	}
 	return false
